@@ -8,7 +8,13 @@ ASTRAL = '\U0001d11e'
 PLAIN = list('abcxyzABZ0189')
 NASTY = ['%', '?', '#', ';', '+', ' ', '"', '<', '>', '[', ']', '{', '}', '|', '\\', '^', '`', '\t', '\x00', '\x7f',
          '\xe9', '\xfc', '€', ASTRAL, '-', '.', '_', '~', ':', '@', '!', '$', '&', "'", '(', ')', '*', ',', '=',
-         '\n', '\r', '\xa0', '١', '%41', '%2F', '%25', '%', '�', 'ı', '\xc9']
+         '\n', '\r', '\xa0', '١', '%41', '%2F', '%25', '%', '�', 'ı', '\xc9'] + \
+    ['e\u0301', 'A\u030a', '\u212b', '\u2126', '\u1100\u1161', '\ufb01', '\uff0f', '\u0130', '\xdf', '\u1e9b\u0323',
+     '\u0301', '\u03a3', '\u03c2']
+# the second list: text that a Unicode normalisation (NFC / NFD / NFKC), a case mapping or a case folding would change --
+# a base letter followed by a combining mark, singletons (ANGSTROM SIGN, OHM SIGN), conjoining Hangul jamo, a ligature,
+# a full-width solidus, dotted capital I, sharp s, a sequence whose canonical order differs, a lone combining mark,
+# capital / final sigma: producer and consumer must treat them alike
 DIGITS = list('0123456789') * 2 + ['١']
 WORD = list('abcXY09_') * 2 + ['\xe9', '١']
 
@@ -46,7 +52,7 @@ HOLES = [
 SEPS = ['/', '/', '/', '/x/', '-', '.', '.html', '_', '%', ' ', '~', '/\xe9/', ',', ';', '=', '/%/', '/a b/', '.€', '@', '+',
         '/(x)/', '/[', '$', '^', '?', '#x', '\\']
 LITS = ['', '', 'a', 'app', 'x y', '100%', 'caf\xe9', '€', 'v1.0', 'a+b', '(x)', '[z]', 'q?', '#h', 'a&b=c', "it's", '~u',
-        ASTRAL, 'A;p', 'a,b', '%41', '%%', '^$', '\\d', 'x|y']
+        ASTRAL, 'A;p', 'a,b', '%41', '%%', '^$', '\\d', 'x|y', 'Jose\u0301', '\u212bm', 'Stra\xdfe', ' pad ']
 NAMES = ['id', 'name', 'x', 'y', 'n0', 'n1', '_v', 'slug']
 STARS = ['rest', 'traverse', 'subpath', 'tail']
 
@@ -188,7 +194,8 @@ def gen_star_kw(rng):
         for s in segs:
             t = typed(rng, s)[1]
             items.append(t)
-        return ['q', items, rng.choice(['list', 'tuple'])]
+        # one-shot iterators (iter(...), a generator expression): consumed by whoever iterates first
+        return ['q', items, rng.choice(['list', 'tuple', 'list', 'tuple', 'list', 'tuple', 'iter', 'gen'])]
     if r < 0.70:
         segs = [rng.choice(['', '.', '..', 'a/b', '/x', 'x/', 'a', gen_segment(rng), '...', ' ', '\n', 'a\nb'])
                 for _ in range(rng.choice([1, 2, 3]))]
@@ -339,7 +346,7 @@ def G_text(rng):
     return ''.join(SEG_POOL(rng) for _ in range(rng.choice([1, 2, 3])))
 
 
-ECHO_TEXTS = ['x/', 'a/b/', '/', 'p q/', 'a+b', "it's", '(x)', 'a,b/', '~u/', '%41/', '\xe9/']
+ECHO_TEXTS = ['x/', 'a/b/', '/', 'p q/', 'a+b', "it's", '(x)', 'a,b/', '~u/', '%41/', '\xe9/', 'e\u0301/', '\u212b']
 
 
 def gen_echo_case(rng):
@@ -407,10 +414,87 @@ def gen_req_case(rng):
             'path_info': rng.choice(POP_PATHS), 'steps': steps, 'meta': {'req': 1}}
 
 
+# ---- placeholders whose regular expression is outside C01's sublanguage: capturing and non-capturing groups,
+# alternation, lazy quantifiers, several groups in one placeholder (no named inner groups, no back-references, no
+# look-around: see ASSUMPTIONS).  (regex, the pieces a value is made of, lo, hi)
+OPEN_HOLES = [
+    ('(en|fr)', ['en', 'fr'], 1, 1), ('(19|20)\\d\\d', ['1999', '2024', '2000'], 1, 1),
+    ('(\\d{2}|\\d{4})', ['12', '2024', '07'], 1, 1), ('(small|large)', ['small', 'large'], 1, 1),
+    ('(?:a|b)+', ['a', 'b'], 1, 3), ('([a-z]+)', list('abcxyz'), 1, 3), ('(a)(b)?', ['a', 'ab'], 1, 1),
+    ('((x)y)+', ['xy'], 1, 2), ('\\d+?', list('0123456789'), 1, 3), ('a|bc', ['a', 'bc'], 1, 1),
+    ('(\\w+)-(\\w+)', ['a-b', 'x1-y2', '\xe9-z'], 1, 1), ('([^/]+)', ['a', 'b c', '%', '\xe9', 'e\u0301'], 1, 2),
+    ('(?:(v)(\\d))?z', ['z', 'v1z', 'v7z'], 1, 1), ('()\\d', list('0123456789'), 1, 1), ('(a*)(a*)b', ['b', 'ab', 'aab'], 1, 1),
+]
+OPEN_SEPS = ['/', '/', '/', '/docs/', '-', '.', '_', '/x/', '~', ',', '/e\u0301/']
+OPEN_WRONG = ['de', 'x', '', '1', 'A', 'a/b', 'zz', ' ']
+
+
+def gen_open_case(rng):
+    """a target pattern with at least one such placeholder, FOLLOWED by another placeholder or a remainder (so that the
+    groups inside the regex sit in front of a later named group); short texts: the specification enumerates every way of
+    cutting the path along the pattern, the harness ships re.fullmatch for every substring"""
+    for _ in range(30):
+        elems = [('lit', '/' + rng.choice(['', '', 'a/', 'thumb/', 'caf\xe9/', 'x y/']))]
+        nh = rng.choice([1, 2, 2, 2, 3])
+        names = rng.sample(NAMES, nh)
+        k_open = rng.randrange(nh) if rng.random() < 0.7 else 0
+        specs = []
+        for i, nm in enumerate(names):
+            if i == k_open or rng.random() < 0.3:
+                rx, pieces, lo, hi = rng.choice(OPEN_HOLES)
+                spec = (rx, _from(pieces), lo, hi, None)
+            else:
+                spec = rng.choice(HOLES[:8])
+            specs.append(spec)
+            elems.append(('hole', nm, spec))
+            if i + 1 < nh or rng.random() < 0.4:
+                elems.append(('lit', rng.choice(OPEN_SEPS)))
+        star = None
+        if rng.random() < (0.7 if nh == 1 else 0.3):
+            star = rng.choice(STARS)
+            if elems[-1][0] == 'hole':
+                elems.append(('lit', '/'))
+        p = render(elems, star)
+        if P17._external(p):
+            continue
+        pp = P17.parse_pattern(p)
+        if pp is None or [h[0] for h in pp['holes']] != names or (pp['star'] or None) != star:
+            continue
+        kw = []
+        for i, e in enumerate(elems):
+            if e[0] != 'hole':
+                continue
+            nxt = elems[i + 1][1] if i + 1 < len(elems) and elems[i + 1][0] == 'lit' else ''
+            if rng.random() < 0.9:
+                text = sample_value(rng, (e[2][0], e[2][1], e[2][2], min(e[2][3] or 2, 2), None), nxt[:1] if e[2][4] else '')
+            else:
+                text = rng.choice(OPEN_WRONG)
+            kw.append([e[1], typed(rng, text)])
+        if star is not None:
+            segs = [rng.choice(['a', 'b c', 'docs', '7', '\xe9', 'x.y']) for _ in range(rng.choice([0, 1, 2, 2]))]
+            kw.append([star, ['q', [typed(rng, s)[1] for s in segs], rng.choice(['list', 'tuple'])]
+                       if rng.random() < 0.8 else ['v', ['s', '/'.join(segs)]]])
+        if rng.random() < 0.05 and kw:
+            kw.pop(rng.randrange(len(kw)))
+        rng.shuffle(kw)
+        routes = [['target', p]]
+        if rng.random() < 0.3:
+            routes.append(['catchall', '/*all'])
+        els = [['s', rng.choice(['e', 'x y', '7'])]] if rng.random() < 0.1 else []
+        return {'routes': routes, 'target': 'target',
+                'env': {'scheme': 'http', 'http_host': None, 'server_name': 'srv', 'server_port': '80',
+                        'script_name': rng.choice(['', '', '/app', '/a b'])},
+                'elements': els,
+                'ov': {'app_url': None, 'scheme': None, 'host': None, 'port': None, 'query': None, 'anchor': None},
+                'kw': kw, 'meta': {'open': 1}}
+    return gen_case(rng, True)
+
+
 def generate(rng, tier, n):
     for _ in range(n):
         r = rng.random()
-        yield gen_hist_case(rng) if r < 0.12 else gen_req_case(rng) if r < 0.24 else gen_case(rng)
+        yield gen_hist_case(rng) if r < 0.12 else gen_req_case(rng) if r < 0.24 else gen_open_case(rng) if r < 0.30 \
+            else gen_case(rng)
 
 
 def simple_case(pattern, kw, script='', els=(), routes_after=(('catchall', '/*all'),)):
@@ -445,4 +529,6 @@ def targeted(rng):
         out.append(gen_hist_case(rng))
     for _ in range(400):
         out.append(gen_case(rng, True))
+    for _ in range(300):
+        out.append(gen_open_case(rng))
     return out
